@@ -617,3 +617,12 @@ M("m114", "C16", "R16.6", HENDRIX, "                scipy.stats.binom.pmf(0, x, 
 M("m115", "C04", "R4.4", RVI, "        self.policy = self._extract_policy()\n        logger.info(\"Policy extracted\")\n\n        logger.success(\"Relative value iteration completed\")",
   "        if self.policy is None:\n            self.policy = self._extract_policy()\n        logger.info(\"Policy extracted\")\n\n        logger.success(\"Relative value iteration completed\")",
   "RVI: policy extracted only on the first solve() call (a continued solve returns the stale policy) - from seeded change C04b")
+M("m116", "C02", "R2.6", VI, "        return values[self.problem.state_to_index(next_state)]\n\n    def _calculate_updated_state_action_value",
+  "        return self.values[self.problem.state_to_index(next_state)]\n\n    def _calculate_updated_state_action_value",
+  "successor value read from self.values inside the traced kernel: the values of the first call are compiled in and every later sweep reuses them")
+M("m117", "C02", "R2.6", SAVI, "            actions, random_events, gamma, current_values = carry\n", "            actions, random_events, gamma, current_values = carry\n            gamma = gamma * (self.iteration >= 0)\n",
+  "semi-async kernel reads the iteration counter at trace time")
+M("m118", "C08", "R8.5", VI, "        return jnp.max(delta) - jnp.min(delta)", "        delta = delta.reshape(-1, 1)\n        return jnp.max(delta - delta.T) ", "placeholder", survives="n/a")
+MUTANTS.pop()
+M("m119", "C04", "R4.1", RVI, "        new_values = new_values - self.gain\n", "        new_values = new_values - jnp.asarray(self.gain, dtype=jnp.float32)\n" if False else "        new_values = (new_values - self.gain).reshape(-1, 1)\n",
+  "RVI iterate silently becomes a column vector (later broadcasting against self.values gives an n x n difference)", survives="no")
